@@ -2,6 +2,7 @@ package c16
 
 import (
 	"bytes"
+	"fmt"
 	"crypto/sha256"
 	"encoding/binary"
 	"testing"
@@ -49,6 +50,9 @@ func TestC16SMTSmall(t *testing.T) {
 		// populate
 		byPath := map[string]store.VerifOp{}
 		n := rapid.IntRange(1, 60).Draw(t, "n")
+		if rapid.IntRange(0, 3).Draw(t, "tiny") == 0 {
+			n = rapid.IntRange(1, 3).Draw(t, "ntiny") // tiny trees: proofs are 2-3 nodes long, most of the tree is behind sibling stubs
+		}
 		for i := 0; i < n; i++ {
 			k := ctrKey(rapid.IntRange(0, universe-1).Draw(t, "key"))
 			h := sha256.Sum256(k)
@@ -185,7 +189,15 @@ func TestC16SMTSmall(t *testing.T) {
 							t.Fatalf("VerifyProof panicked on a foreign proof: %v", pan)
 						}
 						if ok && member != present {
-							t.Fatalf("soundness: bits=%d: proof for key %x accepted for false statement about key %x (member=%v present=%v)", keyBits, ok2, k, member, present)
+							dbg := fmt.Sprintf("queried path %s, other path %s, proof:", bitstr(path), bitstr(op))
+							for _, n := range oproof {
+								dbg += fmt.Sprintf(" [key=%x val=%x.. bm=%d]", n.Key, n.Value[:min(4, len(n.Value))], n.Bitmask)
+							}
+							dbg += " leaves:"
+							for _, p := range sortedStrings(keysOf(model)) {
+								dbg += " " + bitstr(sm.Bits(p))
+							}
+							t.Fatalf("soundness: bits=%d: proof for key %x accepted for false statement about key %x (member=%v present=%v)\n%s", keyBits, ok2, k, member, present, dbg)
 						}
 					}
 					ec.Class("forged=foreign-leaf-proof")
@@ -230,4 +242,20 @@ func sortedStrings(s []string) []string {
 		m[x] = nil
 	}
 	return sortedKeys(m)
+}
+
+func keysOf(m map[string]store.VerifOp) []string {
+	out := make([]string, 0, len(m))
+	for k := range m {
+		out = append(out, k)
+	}
+	return out
+}
+
+func bitstr(b sm.Bits) string {
+	o := make([]byte, len(b))
+	for i, x := range b {
+		o[i] = '0' + x
+	}
+	return string(o)
 }
